@@ -427,6 +427,9 @@ pub fn run_l(case: &LCase) -> (SimEnd, crate::sched::SimStats, LObs) {
                 if let Some(id) = ids[i] {
                     o.conns[i].rx_at_checkpoint = Some(w.conns[id].client_rx.clone());
                     o.conns[i].sent_at_checkpoint = env.offsets[i];
+                    // (also kept for the case that the run never gets to its regular end)
+                    o.conns[i].connected = true;
+                    o.conns[i].accepted = w.conns[id].accepted;
                 }
             }
         }
@@ -628,6 +631,24 @@ pub fn judge_l(case: &LCase, end: &SimEnd, o: &LObs) -> LVerdict {
                     t.chars().take(300).collect::<String>()
                 ),
             ));
+            // what was seen at the checkpoint still counts: a well-behaved connection that had sent its
+            // requests and had not even been accepted while others were open was kept out by them
+            if case.conns.len() > 1 && !case.steps.iter().any(|s| matches!(s, Step::SetStop)) {
+                for (i, (lc, co)) in case.conns.iter().zip(o.conns.iter()).enumerate() {
+                    let others_open = o.conns.iter().enumerate().filter(|(j, c)| *j != i && c.connected && c.accepted.is_some()).count();
+                    if lc.peer == Peer::Healthy && co.connected && co.sent_at_checkpoint > 0 && co.accepted.is_none() && others_open > 0 && others_open < case.max {
+                        v.push(viol(
+                            "C13",
+                            "blocked-by-other-connections",
+                            format!(
+                                "connection {} had connected and sent {} bytes of requests, but at quiescence it had not even been accepted although only {} other connection(s) had been (max_worker_threads={}); the run then ended in a deadlock of the server",
+                                i, co.sent_at_checkpoint, others_open, case.max
+                            ),
+                        ));
+                        break;
+                    }
+                }
+            }
             return LVerdict { violations: v, inconclusive: false, probes };
         }
         SimEnd::StepBound => {
@@ -713,6 +734,34 @@ pub fn judge_l(case: &LCase, end: &SimEnd, o: &LObs) -> LVerdict {
                 }
             }
         }
+        // not even accepted when, at the checkpoint, nothing could happen any more: an acceptor that is
+        // where it belongs (waiting for connections) takes a pending connection at once, so it is held up
+        // somewhere - by something that has to do with the connections that are open
+        if multi && lc.peer == Peer::Healthy && !faulted && co.sent_at_checkpoint > 0 {
+            let by_checkpoint = match (co.accepted, o.released_at) {
+                (Some((a, _)), Some((r, _))) => a < r,
+                (None, _) => false,
+                _ => true,
+            };
+            let listen_over = match (listen_ret_seq, o.released_at) {
+                (Some(l), Some((r, _))) => l < r,
+                _ => false,
+            };
+            let stop_before = match (o.stop_set, o.released_at) {
+                (Some(s), Some(rel)) => s.0 < rel.0,
+                _ => false,
+            };
+            if !by_checkpoint && !listen_over && !stop_before && !o.emergency && in_service_at_release < case.max {
+                v.push(viol(
+                    "C13",
+                    "blocked-by-other-connections",
+                    format!(
+                        "connection {} had connected and sent {} bytes of complete requests, but at quiescence it had not even been accepted although the server was accepting, {} other connection(s) were open and max_worker_threads is {}",
+                        i, co.sent_at_checkpoint, in_service_at_release, case.max
+                    ),
+                ));
+            }
+        }
         if co.accepted.is_none() {
             // never accepted: a violation only if the server was still accepting when the peers were released
             let still_accepting = match (listen_ret_seq, o.released_at) {
@@ -754,6 +803,21 @@ pub fn judge_l(case: &LCase, end: &SimEnd, o: &LObs) -> LVerdict {
                                 .map(|(j, _)| j)
                                 .collect();
                             if !open.is_empty() && !co.sent.is_empty() {
+                                // ... and if one of the peers the server had to deal with sent malformed
+                                // input or misbehaved, this later connection is paying for that
+                                let misbehaved = case.conns.iter().zip(o.conns.iter()).enumerate().any(|(j, (lcj, cj))| {
+                                    j != i && cj.connected && (lcj.peer != Peer::Healthy || cj.faulted_by_script || model_stream(&case.cfg, &cj.sent).has_malformed)
+                                });
+                                if misbehaved {
+                                    v.push(viol(
+                                        "C06",
+                                        "neighbour-affected",
+                                        format!(
+                                            "connection {} arrived after a faulty peer had been dealt with and was never accepted: the server stopped accepting at t={} ms (idle timeout) although connection(s) {:?} were still open",
+                                            i, dt, open
+                                        ),
+                                    ));
+                                }
                                 v.push(viol(
                                     "C13",
                                     "blocked-by-other-connections",
@@ -1892,9 +1956,23 @@ pub fn c04_l_spaces(tier: Tier) -> Vec<Space> {
                     }
                 })
                 .collect();
-            let s = token_stream(&cfg, &kinds, 0);
+            let mut s = token_stream(&cfg, &kinds, 0);
             let depth = rng.range(1, len as u64) as usize;
-            let steps = batch_steps(0, &s, depth, rng.chance(1, 2));
+            let mut steps = batch_steps(0, &s, depth, rng.chance(1, 2));
+            // now and then the peer's last words are a oneway request that lacks only its NUL, and then
+            // it shuts down its write side (and keeps reading): an incomplete message is no request,
+            // least of all one that is answered
+            if rng.chance(1, 5) {
+                let mut last = crate::alphabet::frame(&crate::alphabet::build(&cfg, Kind(*rng.pick(crate::alphabet::ALL_BASES), Flags::ONEWAY), "c0-last"));
+                last.pop();
+                let n = last.len();
+                s.extend_from_slice(&last);
+                steps.push(Step::Send(0, n));
+                if rng.chance(1, 2) {
+                    steps.push(Step::Quiesce);
+                }
+                steps.push(Step::HalfClose(0));
+            }
             let mut conn = LConn::healthy(&s);
             if rng.chance(1, 3) {
                 conn.srv_read_plan = (0..rng.range(1, 30)).map(|_| rng.range(1, 90) as u16).collect();
@@ -2074,7 +2152,15 @@ pub fn c01_spaces(tier: Tier) -> Vec<Space> {
                 let mut conns = Vec::new();
                 let mut steps = Vec::new();
                 let mut talker = 0;
+                // in a quarter of the runs the server has an idle timeout and two or more idle periods
+                // pass, the silent connections open, before the talker arrives
+                let timed = rng.chance(1, 4);
+                let talker_at = if timed { others } else { talker_at };
                 for i in 0..=others {
+                    if timed && i == talker_at {
+                        steps.push(Step::Quiesce);
+                        steps.push(Step::Sleep(*rng.pick(&[2100u64, 2600, 3400])));
+                    }
                     if i == talker_at {
                         talker = i;
                         conns.push(LConn::healthy(&token_stream(&cfg, &kinds, i)));
@@ -2092,6 +2178,9 @@ pub fn c01_spaces(tier: Tier) -> Vec<Space> {
                 lc.conns = conns;
                 lc.initial = rng.range(1, 2) as usize;
                 lc.max = *rng.pick(&[8usize, 16, 100]);
+                if timed {
+                    lc.idle_timeout = 1;
+                }
                 Case::L(lc)
             }),
         });
@@ -2278,6 +2367,53 @@ pub fn c02_spaces(tier: Tier) -> Vec<Space> {
             }),
         });
     }
+    // the stop flag is raised while an upgraded connection is in mid-conversation: it only stops new
+    // connections from being accepted; what the peer goes on sending (with pauses) still reaches the handler
+    {
+        let n = if tier == Tier::Quick { 600 } else { 20_000 };
+        spaces.push(Space {
+            name: "L.upgrade.across-stop",
+            size: n,
+            exhaustive: false,
+            gen: Box::new(move |_idx, seed| {
+                let mut rng = Rng::new(seed);
+                let mut cfg = SvcCfg::basic();
+                cfg.upgrade_mode = *rng.pick(&[2u8, 3, 3, 4]);
+                let mut s = crate::alphabet::frame(&crate::alphabet::upgrade_request(&cfg, rng.chance(1, 2), "up"));
+                let mut cuts = vec![s.len()];
+                let records = rng.range(2, 6);
+                for r in 0..records {
+                    match cfg.upgrade_mode {
+                        4 => {
+                            let len = rng.range(0, 40) as usize;
+                            s.push(len as u8);
+                            s.extend(std::iter::repeat(b'a' + r as u8).take(len));
+                        }
+                        3 => s.extend_from_slice(format!("rec-{}\nEnd\n", r).as_bytes()),
+                        _ => s.extend_from_slice(format!("rec-{}\n", r).as_bytes()),
+                    }
+                    cuts.push(s.len());
+                }
+                cuts.pop();
+                // every record in its own segment, a wait after each; the flag goes up after the k-th
+                let stop_after = rng.range(1, cuts.len() as u64) as usize;
+                let mut steps = vec![Step::Connect(0)];
+                let mut last = 0usize;
+                for (k, c) in cuts.iter().chain(std::iter::once(&s.len())).enumerate() {
+                    steps.push(Step::Send(0, c - last));
+                    last = *c;
+                    steps.push(Step::Quiesce);
+                    if k + 1 == stop_after {
+                        steps.push(Step::SetStop);
+                        steps.push(Step::Sleep(rng.range(100, 400)));
+                    }
+                }
+                let mut lc = LCase::single(&cfg, LConn::healthy(&s), steps, SchedCfg::random(&mut rng, 1));
+                lc.stop_flag = true;
+                Case::L(lc)
+            }),
+        });
+    }
     // a signal interrupts a read of an upgraded handler that passes I/O errors on (V5) right after it
     // has taken the bytes that came with the upgrade request: the connection may end, but what the
     // handler processed stays a prefix of the stream (nothing twice)
@@ -2425,7 +2561,9 @@ pub fn c03_spaces(tier: Tier) -> Vec<Space> {
             let nconn = hostile + rng.range(1, 3) as usize;
             for c in hostile..nconn {
                 let mut s = Vec::new();
-                for i in 0..rng.range(1, 5) {
+                // now and then a long pipeline: 40..120 calls in one segment
+                let ncalls = if rng.chance(1, 8) { rng.range(40, 120) } else { rng.range(1, 5) };
+                for i in 0..ncalls {
                     let base = rng.pick(crate::props::NAME_POOL).to_string();
                     if rng.chance(1, 5) {
                         // descriptions asked for from several connections at the same time
@@ -2499,7 +2637,12 @@ pub fn c06_spaces(tier: Tier) -> Vec<Space> {
             }
             let mut bad = token_stream(&cfg, &[crate::alphabet::Kind(crate::alphabet::Base::Echo, crate::alphabet::Flags::NONE)], 0);
             bad.extend_from_slice(&victim);
-            if rng.chance(1, 4) {
+            if rng.chance(1, 12) {
+                // the peer's last message is a well-formed request that lacks only its NUL: the stream
+                // ends there (half-close at the release), the message is incomplete and gets no reply
+                bad = token_stream(&cfg, &[crate::alphabet::Kind(crate::alphabet::Base::Echo, crate::alphabet::Flags::NONE), crate::alphabet::Kind(crate::alphabet::Base::GetInfo, crate::alphabet::Flags::NONE)], 0);
+                bad.pop();
+            } else if rng.chance(1, 4) {
                 // the peer goes away in the middle of a message: the stream ends without a NUL
                 while bad.last() == Some(&0) {
                     bad.pop();
@@ -2540,10 +2683,20 @@ pub fn c06_spaces(tier: Tier) -> Vec<Space> {
                 steps.push(if rng.chance(1, 2) { Step::Close(0) } else { Step::Reset(0) });
                 steps.push(Step::Quiesce);
             }
+            // in a fifth of the runs the server has an idle timeout, and an idle period or two pass - the
+            // faulty connection gone, the healthy one still open - before the later connection arrives
+            let timed = rng.chance(1, 5);
+            if timed {
+                steps.push(Step::Quiesce);
+                steps.push(Step::Sleep(*rng.pick(&[1200u64, 2100, 2700])));
+            }
             // the later connection
             steps.push(Step::Connect(2));
             steps.push(Step::Send(2, good2.len()));
             let mut lc = LCase::single(&cfg, LConn::healthy(&bad), steps, SchedCfg::random(&mut rng, 1));
+            if timed {
+                lc.idle_timeout = 1;
+            }
             lc.conns = vec![LConn::healthy(&bad), LConn::healthy(&good1), LConn::healthy(&good2)];
             if rng.chance(1, 60) {
                 // a long-lived healthy neighbour that moves more than a megabyte
@@ -2911,7 +3064,7 @@ pub fn c14_spaces(tier: Tier) -> Vec<Space> {
     let pools = [(1usize, 1usize), (1, 2), (1, 3), (2, 2), (2, 3), (1, 4), (3, 4), (3, 2)];
     let seeds: u64 = if tier == Tier::Quick { 20 } else { 400 };
     let nconns = [2usize, 3, 4, 5, 6];
-    let size = pools.len() as u64 * nconns.len() as u64 * 6 * seeds;
+    let size = pools.len() as u64 * nconns.len() as u64 * 7 * seeds;
     vec![Space {
         name: "L.pool.bursts",
         size,
@@ -2928,7 +3081,9 @@ pub fn c14_spaces(tier: Tier) -> Vec<Space> {
             // 4: as 1, but every second connection upgrades itself and keeps talking the upgraded protocol
             // 5: as 1, but all connections except the last one end in an error of the implementation
             //    (the worker's error path), the last one must be served once the others are gone
-            let pattern = i % 6;
+            // 6: an idle timeout of 1 s; the first connections arrive together and stay (the pool grows),
+            //    one or more idle periods pass, then the last connection arrives and must be served
+            let pattern = i % 7;
             let mut conns = Vec::new();
             let mut steps = Vec::new();
             let mut cfg = cfg.clone();
@@ -2954,6 +3109,19 @@ pub fn c14_spaces(tier: Tier) -> Vec<Space> {
                     for c in 0..n {
                         steps.push(Step::Send(c, 10_000));
                     }
+                }
+                6 => {
+                    for c in 0..n - 1 {
+                        steps.push(Step::Connect(c));
+                        steps.push(Step::Send(c, 10_000));
+                    }
+                    steps.push(Step::Quiesce);
+                    steps.push(Step::Sleep(*rng.pick(&[1100u64, 1500, 2100, 3300])));
+                    if rng.chance(1, 2) {
+                        steps.push(Step::Quiesce);
+                    }
+                    steps.push(Step::Connect(n - 1));
+                    steps.push(Step::Send(n - 1, 10_000));
                 }
                 1 | 4 | 5 => {
                     for c in 0..n {
@@ -2988,6 +3156,10 @@ pub fn c14_spaces(tier: Tier) -> Vec<Space> {
             lc.conns = conns;
             lc.initial = initial;
             lc.max = max;
+            if pattern == 6 {
+                lc.idle_timeout = 1;
+                lc.stop_flag = rng.chance(1, 3);
+            }
             Case::L(lc)
         }),
     }]
@@ -3046,7 +3218,7 @@ pub fn c15_plan(tier: Tier) -> Plan {
     // systematic histories
     {
         let cfg = cfg.clone();
-        let hist = 13u64;
+        let hist = 14u64;
         let idle = [0u64, 1, 2];
         let stopm = 5u64; // absent, present-never-set, set before, set during, set after
         let pools = [(1usize, 1usize), (1, 4), (2, 2), (3, 4)];
@@ -3082,7 +3254,7 @@ pub fn c15_plan(tier: Tier) -> Plan {
             exhaustive: false,
             gen: Box::new(move |_idx, seed| {
                 let mut rng = Rng::new(seed);
-                let h = rng.below(13);
+                let h = rng.below(14);
                 let it = rng.below(3);
                 let sm = rng.below(5);
                 let (initial, max) = *rng.pick(&[(1usize, 1usize), (1, 4), (2, 2), (3, 4)]);
@@ -3223,6 +3395,26 @@ fn life_case(cfg: &SvcCfg, rng: &mut Rng, hist: u64, idle: u64, stopm: u64, init
             for i in 0..k {
                 steps.push(Step::HalfClose(i));
             }
+        }
+        13 => {
+            // a long-lived connection beside short ones that come and go; then one or two idle periods
+            // of silence, the long-lived one still open; then a late connection; then everybody leaves
+            conns.push(LConn::healthy(&echo(0)));
+            steps.extend([Step::Connect(0), Step::Send(0, 10_000)]);
+            let shorts = rng.range(1, 3) as usize;
+            for k in 1..=shorts {
+                conns.push(LConn::healthy(&echo(k)));
+                steps.extend([Step::Connect(k), Step::Send(k, 10_000)]);
+                if rng.chance(1, 2) {
+                    steps.push(Step::Quiesce);
+                }
+                steps.push(Step::HalfClose(k));
+            }
+            steps.push(Step::Quiesce);
+            steps.push(Step::Sleep(idle_ms + rng.range(100, idle_ms + 400)));
+            let late = shorts + 1;
+            conns.push(LConn::healthy(&echo(late)));
+            steps.extend([Step::Connect(late), Step::Send(late, 10_000), Step::Sleep(rng.range(0, 300)), Step::HalfClose(late), Step::HalfClose(0)]);
         }
         12 => {
             // an upgraded connection that lives across several deadlines (and across the stop flag)
